@@ -37,6 +37,8 @@ type SW struct {
 	opens int
 	// crashWithin: for C06, which operation the examined crash point interrupts
 	crashWithin string
+	// ParThreshold is the parallel-deletion threshold of this run
+	ParThreshold uint64
 }
 
 func newSW(s *core.Sim, park bool) *SW {
@@ -52,11 +54,27 @@ func newSW(s *core.Sim, park bool) *SW {
 	w.Disk = simdisk.New("d0", s)
 	w.Disk.Park = park
 	w.M = newStoreModel()
+	// tuning knob: from which range size DeleteRange deletes with parallel workers
+	// (10000 in production; lowered here so that small chains reach that path)
+	w.ParThreshold = 10000
+	store.SimSetDeleteParallelThreshold(w.ParThreshold)
 	return w
 }
 
+// lowerParallelThreshold lets small ranges take DeleteRange's parallel path.
+// Only fault-free configurations use it: there the parallel path must behave
+// exactly like the sequential one. (Under part-way failures the parallel path
+// deletes an arbitrary subset by design; that regime is not explored.)
+func (w *SW) lowerParallelThreshold() {
+	w.ParThreshold = core.Pick(w.S.Tape, "parallel-threshold", []uint64{10000, 10000, 3, 6})
+	store.SimSetDeleteParallelThreshold(w.ParThreshold)
+	if w.ParThreshold < 10000 {
+		w.S.Probe("parallel-delete-path-enabled")
+	}
+}
+
 func (w *SW) cfg() string {
-	return fmt.Sprintf("batch=%d cache=%d icache=%d flav=%s first=%d", w.P.WriteBatchSize, w.P.StoreCacheSize, w.P.IndexCacheSize, w.Flav, w.Ch.First)
+	return fmt.Sprintf("batch=%d cache=%d icache=%d flav=%s first=%d parthr=%d", w.P.WriteBatchSize, w.P.StoreCacheSize, w.P.IndexCacheSize, w.Flav, w.Ch.First, w.ParThreshold)
 }
 
 const opBudget = 10 * time.Minute // virtual
